@@ -190,6 +190,7 @@ package v2
 //@   property C01
 //@   nopanic
 //@   overflow: assumed
+//@   rely[no_earlier_io_fault] fpos(fw.file) == flen(fw.file) && flen(fw.file) >= 64 + fw.header.NameLength
 //@   modifies *
 //@   ensures[rejects_unencodable] (len(entry.Key) < 1 || len(entry.Key) > 65535 || len(entry.Data) > 2147483647) ==> err != nil
 //@   csensures[rejected_entry_not_buffered] (len(entry.Key) < 1 || len(entry.Key) > 65535 || len(entry.Data) > 2147483647) ==> len(fw.buffer.entries) == old(len(fw.buffer.entries)) && fw.buffer.currentSize == old(fw.buffer.currentSize)
@@ -238,6 +239,7 @@ package v2
 //@ func (*FileWriter).Sync(fw) (err)
 //@   property C02
 //@   overflow: assumed
+//@   rely[no_earlier_io_fault] fpos(fw.file) == flen(fw.file) && flen(fw.file) >= 64 + fw.header.NameLength
 //@   modifies *
 //@   csensures[everything_durable] err == nil ==> fsynced(fw.file) == flen(fw.file)
 
@@ -273,8 +275,8 @@ package v2
 //@   requires[open] fr.file != nil
 //@   allocbound max(flen(fr.file), 16)
 //@   modifies *
-//@   ensures[torn_header_is_end_of_file] old(flen(fr.file)) - old(fpos(fr.file)) < 16 ==> err == io.EOF
-//@   ensures[torn_body_is_end_of_file] old(flen(fr.file)) - old(fpos(fr.file)) >= 16 && old(flen(fr.file)) - old(fpos(fr.file)) - 16 < le32f(fr.file, old(fpos(fr.file))) ==> err == io.EOF
+//@   ensures[torn_header_is_end_of_file] isnil(lastret("File.Seek", 1)) && old(flen(fr.file)) - old(fpos(fr.file)) < 16 ==> err == io.EOF
+//@   ensures[torn_body_is_end_of_file] isnil(lastret("File.Seek", 1)) && old(flen(fr.file)) - old(fpos(fr.file)) >= 16 && old(flen(fr.file)) - old(fpos(fr.file)) - 16 < le32f(fr.file, old(fpos(fr.file))) ==> err == io.EOF
 //@   ensures[accepted_block_passed_checksum] err == nil ==> blk != nil && calls("ParseBlock") == old(calls("ParseBlock")) + 1
 //@ pure le32f(f, o) = fbyte(f, o) + 256 * fbyte(f, o + 1) + 65536 * fbyte(f, o + 2) + 16777216 * fbyte(f, o + 3)
 
